@@ -9,6 +9,7 @@ import (
 	"encoding/json"
 	"fmt"
 	"math/big"
+	"sort"
 	"strings"
 	"testing"
 
@@ -195,7 +196,7 @@ func copyHeader(h map[string]interface{}) map[string]interface{} {
 // ---- deterministic tamper sweep -------------------------------------------------------------------------------
 
 func TestTamperSweep(t *testing.T) {
-	ev.Rule(chkSweep, "deterministic sweep: for each of the 5 key types x builder {harness assembler, library signutil+ecsigner/edsigner} x header set {alg; alg+kid; alg+kid+extra string+b64:true; alg+b64:false (assembler only)} x payload {JSON 40 B, binary 1 B, binary 200 B}: the genuine JWS must verify; then every byte of the decoded payload x masks {0x01, 0x80}, payload truncated/extended, every value-level header change (alg replaced, kid changed/added/removed, member added/removed, b64 toggled), every byte of the signature x masks {0x01, 0x80}, every truncation length, every single-byte deletion, one-byte extensions, empty signature, r/s halves swapped, and the signature paired with every foreign key (same type: 3 keys, other types: 4 keys); oracle: accept exactly the genuine pairing; non-trivial = every alteration")
+	ev.Rule(chkSweep, "deterministic sweep: for each of the 5 key types x builder {harness assembler, library signutil+ecsigner/edsigner} x header set {alg; alg+kid; alg+kid+extra string+b64:true; alg+b64:false (assembler only)} x payload {JSON 40 B, binary 1 B, binary 200 B}: the genuine JWS must verify; then every byte of the decoded payload x masks {0x01, 0x80}, payload truncated/extended, every value-level header change (alg replaced, kid changed/added/removed, member added/removed, b64 toggled), the header text with each member name repeated (decoy value none / the same value / an object / null, in front of or behind the genuine member), every byte of the signature x masks {0x01, 0x80}, every truncation length, every single-byte deletion, one-byte extensions, empty signature, r/s halves swapped, and the signature paired with every foreign key (same type: 3 keys, other types: 4 keys); oracle: accept exactly the genuine pairing; non-trivial = every alteration")
 	payloads := [][]byte{[]byte(`{"deltaHash":"EiAbc","updateKey":{"kty":"EC"}}`), {0x7f}, make([]byte, 200)}
 	for i := range payloads[2] {
 		payloads[2][i] = byte(i*7 + 3)
@@ -250,6 +251,10 @@ func TestTamperSweep(t *testing.T) {
 					for _, alt := range headerAlterations(g.header, kt) {
 						rej(g.with(alt.h, payload, g.sig), "header altered ("+alt.note+")", "header")
 					}
+					// header text with a repeated member name (decoy before or after the genuine member)
+					for _, d := range duplicateMemberHeaders(g.compact) {
+						rej(d.compact, "header altered ("+d.note+")", "header-duplicate-member")
+					}
 					// signature
 					for i := range g.sig {
 						for _, m := range []byte{0x01, 0x80} {
@@ -287,6 +292,39 @@ func TestTamperSweep(t *testing.T) {
 		}
 	}
 	ev.Exhaustive(chkSweep)
+}
+
+type rawAlt struct{ compact, note string }
+
+// duplicateMemberHeaders re-writes the decoded protected header of a genuine compact JWS so that one member name
+// occurs twice: a decoy (another value, the same value, or an object) in front of the genuine member or behind it.
+// Payload and signature segments stay as they are.
+func duplicateMemberHeaders(compact string) []rawAlt {
+	parts := strings.Split(compact, ".")
+	raw, err := base64.RawURLEncoding.DecodeString(parts[0])
+	if err != nil || len(parts) != 3 || len(raw) < 2 || raw[0] != '{' {
+		return nil
+	}
+	var names map[string]json.RawMessage
+	if json.Unmarshal(raw, &names) != nil {
+		return nil
+	}
+	var sorted []string
+	for n := range names {
+		sorted = append(sorted, n)
+	}
+	sort.Strings(sorted)
+	var out []rawAlt
+	body := string(raw[1 : len(raw)-1])
+	for _, n := range sorted {
+		for _, decoy := range []string{`"none"`, string(names[n]), `{"alg":"none"}`, `null`} {
+			m := fmt.Sprintf("%q:%s", n, decoy)
+			out = append(out,
+				rawAlt{asm.B64([]byte("{"+m+","+body+"}")) + "." + parts[1] + "." + parts[2], fmt.Sprintf("member %s repeated with value %s in front of the genuine one", n, decoy)},
+				rawAlt{asm.B64([]byte("{"+body+","+m+"}")) + "." + parts[1] + "." + parts[2], fmt.Sprintf("member %s repeated with value %s behind the genuine one", n, decoy)})
+		}
+	}
+	return out
 }
 
 type headerAlt struct {
